@@ -45,14 +45,33 @@ Section C18.
   Lemma cap_pos : cap >= 1.
   Proof. apply Nat.leb_le. vm_compute. reflexivity. Qed.
 
-  (* NO DEADLOCK, with the capacity and receiver fact of the source: while
-     nobody has aborted, every reachable state that is not final can move *)
-  Theorem no_deadlock : forall n items tr s,
-    n >= 1 ->
-    exec file result results cap krx tr (init file result n items) = Some s ->
-    aborted file result s = false -> terminal file result s = false ->
+  (* the source drops the original Receiver of the paths channel right after
+     the workers are spawned (Gen/WalkGen.v, regenerated on every run) *)
+  Lemma receiver_dropped : krx = false.
+  Proof. reflexivity. Qed.
+
+  (* NO DEADLOCK, full form, with the capacity and receiver fact of the source:
+     every state that is not final -- reachable or not, aborted or not -- has
+     an enabled transition; in particular every reachable one *)
+  Theorem no_deadlock : forall s,
+    terminal file result s = false ->
     exists l s', step file result results cap krx s l = Some s'.
-  Proof. intros n items tr s Hn. exact (WalkProofs.no_deadlock file result results cap krx file_dec result_dec n items tr s Hn cap_pos). Qed.
+  Proof. intros s. exact (WalkProofs.no_deadlock_receiver_dropped file result results cap krx s receiver_dropped cap_pos). Qed.
+
+  Theorem no_deadlock_reachable : forall n items tr s,
+    exec file result results cap krx tr (init file result n items) = Some s ->
+    terminal file result s = false ->
+    exists l s', step file result results cap krx s l = Some s'.
+  Proof. intros n items tr s _. exact (no_deadlock s). Qed.
+
+  (* independently of the receiver fact: while nobody has aborted, no reachable
+     non-final state is stuck *)
+  Theorem no_deadlock_without_abort : forall keeps n items tr s,
+    n >= 1 ->
+    exec file result results cap keeps tr (init file result n items) = Some s ->
+    aborted file result s = false -> terminal file result s = false ->
+    exists l s', step file result results cap keeps s l = Some s'.
+  Proof. intros keeps n items tr s Hn. exact (WalkProofs.no_deadlock file result results cap keeps file_dec result_dec n items tr s Hn cap_pos). Qed.
 
   (* every schedule is finite (each transition decreases a measure), so every
      maximal schedule of a run without abort ends in a final state *)
@@ -61,24 +80,26 @@ Section C18.
     length tr + measure file result results s' <= measure file result results s.
   Proof. intros capacity keeps. exact (WalkProofs.exec_terminates file result results capacity keeps). Qed.
 
-  (* aborted runs included: the only stuck non-final state is the walker
-     blocked on a full channel after every worker has left its loop *)
-  Theorem stuck_is_hang : forall s,
-    terminal file result s = false -> (forall l, step file result results cap krx s l = None) ->
-    hang file result cap krx s.
-  Proof. intros s. exact (WalkProofs.stuck_is_hang file result results cap krx s cap_pos). Qed.
+  (* for either value of the receiver fact: the only stuck non-final state is
+     the walker blocked on a full channel after every worker has left its loop *)
+  Theorem stuck_is_hang : forall keeps s,
+    terminal file result s = false -> (forall l, step file result results cap keeps s l = None) ->
+    hang file result cap keeps s.
+  Proof. intros keeps s. exact (WalkProofs.stuck_is_hang file result results cap keeps s cap_pos). Qed.
 
-  (* REFUTED in the abort case: if main keeps a Receiver of the paths channel
-     while joining (it does: Gen/WalkGen.v), one worker, capacity + 2 files and
-     a first scan that times out lead to a reachable state that is not final
-     and in which no thread can ever move: `yr scan --timeout` hangs. *)
-  Theorem no_deadlock_after_abort_refuted : forall f0 : file,
-    krx = true ->
+  (* the refutation, in the conditional form that stays true: IF main kept a
+     Receiver of the paths channel while joining (as the code did before the
+     fix 686deaba), one worker, capacity + 2 files and a first scan that times
+     out would reach a state that is not final and in which no thread can ever
+     move.  A regression to that shape flips Gen/WalkGen.v and breaks
+     [receiver_dropped] above. *)
+  Theorem hang_if_receiver_kept : forall (keeps : bool) (f0 : file),
+    keeps = true ->
     exists tr s,
-      exec file result results cap krx tr (init file result 1 (repeat (IFile f0) (cap + 2))) = Some s /\
-      terminal file result s = false /\ (forall l, step file result results cap krx s l = None) /\
-      hang file result cap krx s /\ aborted file result s = true.
-  Proof. intros f0 Hk. exact (WalkProofs.abort_hang_reachable file result results cap krx f0 Hk cap_pos). Qed.
+      exec file result results cap keeps tr (init file result 1 (repeat (IFile f0) (cap + 2))) = Some s /\
+      terminal file result s = false /\ (forall l, step file result results cap keeps s l = None) /\
+      hang file result cap keeps s /\ aborted file result s = true.
+  Proof. intros keeps f0 Hk. exact (WalkProofs.abort_hang_reachable file result results cap keeps f0 Hk cap_pos). Qed.
 
   (* the executable scheduler used by the correspondence check follows the
      transition system, and with as many picks as the initial measure it ends
@@ -102,14 +123,16 @@ End C18.
 Print Assumptions exactly_once.
 Print Assumptions exactly_once_all_ok.
 Print Assumptions no_deadlock.
+Print Assumptions no_deadlock_reachable.
+Print Assumptions no_deadlock_without_abort.
 Print Assumptions every_schedule_terminates.
 Print Assumptions stuck_is_hang.
-Print Assumptions no_deadlock_after_abort_refuted.
+Print Assumptions hang_if_receiver_kept.
 Print Assumptions scheduler_sound.
 Print Assumptions scheduler_completes.
 
 (* the executable probe model agrees: with capacity + 2 files the run hangs
-   exactly when main keeps the Receiver (true for the current source), with
+   exactly when main keeps the Receiver (it does not: the probe must exit), with
    capacity + 1 files it never does *)
 Example refutation_applies :
   probe_model_hangs (paths_channel_capacity + 2) = main_keeps_paths_receiver /\
